@@ -30,7 +30,8 @@ def gen_irset(rng: random.Random, *, toggle: bool | None = None, special: bool |
     toggle = rng.random() < 0.5 if toggle is None else toggle
     special = rng.random() < 0.35 if special is None else special
     dense = rng.random() < 0.5 if dense is None else dense
-    rid = rng.choice(SPECIAL) if special else rng.choice(["ELEC7001", "GREE0001", "ZM079050", "AUX12345", "TADI0009"])
+    rid = rng.choice(SPECIAL) if special else rng.choice(["ELEC7001", "GREE0001", "ZM079050", "AUX12345", "TADI0009", "ELEC70221", "ZM0790651",
+                                                           "XELEC7022", "ELEC702", "elec7022", "ZM079049A", "ZM07906", " ELEC7022", "ELEC7022 "])
     modes = [m for m in MODES if rng.random() < (0.8 if dense else 0.5)] or [rng.choice(list(MODES))]
     lo = rng.randrange(10, 25)
     hi = lo + (rng.randrange(0, 4) if small else rng.randrange(0, 17))
